@@ -262,7 +262,7 @@ class KaniCheck:
             loc = c.get("location", {})
             low = (desc + " " + cat).lower()
             if stt == "Failure":
-                if any(m in low for m in INCONCLUSIVE_MARKERS) or cat in ("unwind", "unsupported_construct"):
+                if any(m in low for m in INCONCLUSIVE_MARKERS) or cat in ("unwind", "unsupported_construct") or "HARNESS:" in desc:
                     r.inconclusive_reasons.append("%s: %s" % (cat, desc))
                 else:
                     failed.append((desc.strip('"'), loc.get("file", ""), loc.get("line", ""), cat))
